@@ -357,7 +357,7 @@ class ModuleFinder:
                 self.iter_submodules(module.filepath),
                 self.iter_submodules(self._always_scan_for[module.name]),
             ),
-            key=_module_depth,
+            key=_module_depth_and_stubs,
         )
 
     def _module_name_path(self, path: Path) -> tuple[str, Path]:
@@ -433,8 +433,11 @@ def _is_pkg_style_namespace(init_module: Path) -> bool:
     return bool(_re_pkgresources.search(code) or _re_pkgutil.search(code))
 
 
-def _module_depth(name_parts_and_path: NamePartsAndPathType) -> int:
-    return len(name_parts_and_path[0])
+def _module_depth_and_stubs(name_parts_and_path: NamePartsAndPathType) -> tuple[int, bool]:
+    # Sort by depth, and stubs after regular modules of the same depth,
+    # so that the result of merging does not depend on directory listing order.
+    name_parts, filepath = name_parts_and_path
+    return len(name_parts), filepath.suffix == ".pyi"
 
 
 @dataclass
